@@ -260,7 +260,8 @@ def ukfPredictAugmented (fac : α → Mat α (n + nz) (n + nz) → Mat α (n + n
   else (utStateModel (nx := n) (nz := nz) fac (utWeights (n + nz) alpha beta kappa) (augmentWithNoise prev Q) motion).toGM
 
 /-- What `UKFCorrection` keeps for `getLikelihood`: innovations and predicted-measurement
-    covariances (`innovations_`, `predicted_meas_`); `none` while no correction has succeeded. -/
+    covariances (`innovations_`, `predicted_meas_`); `none` unless this correction succeeded
+    (`innovations_` is emptied when a correction starts: code after fix 5117f2c). -/
 structure UKFCorrOut (α : Type) (n m k : Nat) where
   belief : GM α n k
   lik : Option ((Fin k → Vec α m) × (Fin k → Mat α m m))
@@ -339,10 +340,10 @@ def dirAdd (a b : α) : α := wrapAngle (a + b)
 /-- entry of `directional_sub(a, b) = directional_add(a, -b)` -/
 def dirSub (a b : α) : α := wrapAngle (a + (-b))
 
-/-- one row of `directional_mean(a, w)`: a single column is returned as is, otherwise
-    `arg(Σ_k w_k exp(i a_k))` -/
+/-- one row of `directional_mean(a, w)`: a single column is returned wrapped to `(-π, π]`
+    (code after fix e5e0548), otherwise `arg(Σ_k w_k exp(i a_k))` -/
 def dirMean {N : Nat} (a w : Vec α N) : α :=
-  if h : N = 1 then a ⟨0, by omega⟩
+  if h : N = 1 then wrapAngle (a ⟨0, by omega⟩)
   else Transc.atan2 (fsum N (fun k => Transc.sin (a k) * w k)) (fsum N (fun k => Transc.cos (a k) * w k))
 
 /-- a quaternion `(w, x, y, z)` (real part first) and a rotation vector -/
@@ -368,10 +369,11 @@ def qexp (r : V3 α) : Quat α :=
     ⟨Transc.cos (nr / 2.0), s * r.x / nr, s * r.y / nr, s * r.z / nr⟩
   else ⟨1, 0, 0, 0⟩
 
-/-- `quaternion_to_rotation_vector` (utils.h:98-119), one column -/
+/-- `quaternion_to_rotation_vector` (utils.h:98-120), one column; the vector part is the sine of
+    half the angle, its cut-off is `5·10⁻⁵` (code after fix de34974) -/
 def qlog (q : Quat α) : V3 α :=
   let nn := (V3.mk q.x q.y q.z).norm
-  if (1e-4 : α) < nn then
+  if (5e-5 : α) < nn then
     if q.w < 0 then
       let f := (-(2.0 : α)) * Transc.acos (-q.w)
       ⟨f * q.x / nn, f * q.y / nn, f * q.z / nn⟩
